@@ -413,9 +413,10 @@ Section Ops.
                    ROk ret (w_set_chain (m_w m') (chain_put pre {| c_attrs := c_attrs t'; c_ops := c_ops s' |} rest'))
                  | _ => RUnsup "context chain"
                  end
-               | Fail e m' =>
+               | Fail e m' =>   (* the work done before the failure is charged to the caller as well *)
                  match w_chain (m_w m') with
-                 | _ :: t' :: rest' => RFail e (w_set_chain (m_w m') (chain_put pre t' rest'))
+                 | s' :: t' :: rest' =>
+                   RFail e (w_set_chain (m_w m') (chain_put pre {| c_attrs := c_attrs t'; c_ops := Z.max (c_ops t') (c_ops s') |} rest'))
                  | _ => RUnsup "context chain"
                  end
                | Panic s => RPanic s
@@ -458,10 +459,12 @@ Section Ops.
                    ROk ret (w_set_chain (m_w m') ({| c_attrs := c_attrs t'; c_ops := c_ops s' |} :: rest'))
                  | _ => RUnsup "context chain"
                  end
-               | Fail e m' =>
+               | Fail e m' =>   (* the work done before the failure is charged to the caller as well *)
                  match w_chain (m_w m') with
-                 | _ :: rest' => RFail e (w_set_chain (m_w m') rest')
-                 | _ => RUnsup "context chain"
+                 | s' :: t' :: rest' =>
+                   RFail e (w_set_chain (m_w m') ({| c_attrs := c_attrs t'; c_ops := Z.max (c_ops t') (c_ops s') |} :: rest'))
+                 | [_] => RFail e (w_set_chain (m_w m') [])
+                 | [] => RUnsup "context chain"
                  end
                | Panic s => RPanic s
                | OutOfFuel => RFuel
@@ -474,6 +477,22 @@ Section Ops.
      BY THAT CONTEXT and the search goes on when it yields null), then builtins, else null *)
   Definition load_global (name : string) : value :=
     if mem_s name builtin_names then VNative name SNone else VNull.
+  (* The running context's operation counter is carried to the calling context that is being searched and back again
+     (a calling context's own counter is only brought up to date when its callee returns; a computed value found there
+     starts from that counter, and the callee's return overwrites what it leaves behind) *)
+  Definition ops_at (k : nat) (w : world) : Z := match nth_error (w_chain w) k with Some c => c_ops c | None => 0 end.
+  Definition set_ops_at (k : nat) (ops : Z) (w : world) : world :=
+    match nth_error (w_chain w) k with
+    | Some c => w_set_chain w (chain_put (firstn k (w_chain w)) {| c_attrs := c_attrs c; c_ops := ops |} (skipn (S k) (w_chain w)))
+    | None => w
+    end.
+  Definition sync_to (k : nat) (w : world) : world :=
+    match k with O => w | S _ => if ops_at k w <? ops_at 0 w then set_ops_at k (ops_at 0 w) w else w end.
+  Definition sync_back (k : nat) (w : world) : world :=   (* the counter is an int64 in the implementation *)
+    match k with O => w | S _ => let v := wrap64 (ops_at k w) in if ops_at 0 w <? v then set_ops_at 0 v w else w end.
+  Definition rmapw {A} (f : world -> world) (r : R A) : R A :=
+    match r with ROk a w => ROk a (f w) | RFail e w => RFail e (f w) | RPanic s => RPanic s | RFuel => RFuel | RUnsup s => RUnsup s end.
+
   Fixpoint load_walk (n : nat) (k : nat) (name : string) (isRaw : bool) (w : world) : R value :=
     match n with
     | O => ROk (load_global name) w
@@ -482,10 +501,12 @@ Section Ops.
       | None => ROk (load_global name) w
       | Some c =>
         let val := match mget name (get_map (c_attrs c) (w_heap w)) with Some v => v | None => VNull end in
-        rbind (match val with
-               | VComp cid => if isRaw then ROk val w else computed_execute cid k w
-               | _ => ROk val w
-               end)
+        let w0 := sync_to k w in
+        rbind (rmapw (sync_back k)
+                 (match val with
+                  | VComp cid => if isRaw then ROk val w0 else computed_execute cid k w0
+                  | _ => ROk val w0
+                  end))
               (fun v w' => match v with
                            | VNull => load_walk n' (S k) name isRaw w'
                            | _ => ROk v w'
